@@ -206,9 +206,16 @@ def check_trap_weights(out, sub, pts, w, mode, tag=""):
         out.bad(sub + "/structure/weight-count", "%s %d weights for %d nodes" % (tag, len(w), len(wref)))
         return None
     scale = max([abs(t) for t in wref] + [b - a])
-    # tolerance 1e-12*scale: both sides are sums of <= 4 products of differences of the same floats (rounding ~1e-15)
+    # tolerance 1e-12*scale*kappa. Both sides are sums of <= 4 products of differences of the same floats (rounding
+    # seen <= 7e-16*scale), except the library's closed form for 4 points with the modified basis,
+    # (b^2/2 - b*x1 - a^2/2 + a*x1)/(x2-x1), which subtracts numbers of size max(|a|,|b|)^2: its absolute rounding error
+    # is eps*max(|a|,|b|)^2/(x2-x1) in BOTH weights (seen: 3.1e-16*kappa*scale), however small the weight itself is.
+    kappa = 1.0
+    if mode == "modified" and len(pts) == 4:
+        kappa = 1.0 + max(abs(a), abs(b)) ** 2 / ((b - a) * (pts[2] - pts[1]))
+    tolw = 1e-12 * scale * kappa
     err = max(abs(w[i] - wref[i]) for i in range(len(w)))
-    if not err <= 1e-12 * scale:
+    if not err <= tolw:
         i = max(range(len(w)), key=lambda j: abs(w[j] - wref[j]))
         where = "first" if i == 0 else "last" if i == len(w) - 1 else "second" if i == 1 else \
             "second-last" if i == len(w) - 2 else "inner"
@@ -236,12 +243,13 @@ def check_trap_weights(out, sub, pts, w, mode, tag=""):
                 name = "%g*t%+g, t=(x-a)/(b-a)" % (al, be)
             got = math.fsum(w[i] * fx[i] for i in range(len(w)))
             # scale: what the rule sums up, and (b-a) * max|f| on [a,b] (the exact value may vanish by symmetry)
-            sc = math.fsum(abs(w[i]) * abs(fx[i]) for i in range(len(w))) + (b - a) * fmax
+            # (plus the absolute rounding allowance of every weight, see kappa above)
+            sc = math.fsum(abs(w[i]) * abs(fx[i]) for i in range(len(w))) + (b - a) * fmax * kappa
             if not abs(got - ref) <= 1e-11 * sc:      # rounding seen: < 1e-14*sc
                 out.bad("%s/linear-exactness/%s" % (sub, mode),
                         "%s integral of %s is %r, exact %r (n=%d) pts=%s" % (tag, name, got, ref, len(pts), pts[:8]))
                 break
-    return wref
+    return wref, tolw
 
 
 class _Table(object):
@@ -597,13 +605,16 @@ def run_trapezoid(case):
         rng = np.random.default_rng([int(case["rng"]), k])
         if not check_structure(out, sub, g, trees, boundary):
             return
-        wrefs = []
+        wrefs, weff = [], []
         for d, (pts, lev) in enumerate(trees):
             w = [float(t) for t in g.weights[d]]
-            wref = check_trap_weights(out, sub, pts, w, mode, "dim %d" % d)
-            if wref is None:
+            res = check_trap_weights(out, sub, pts, w, mode, "dim %d" % d)
+            if res is None:
                 return
-            wrefs.append(wref)
+            wrefs.append(res[0])
+            # |w_i| as the rule actually uses it, plus the absolute error each weight is allowed to have by the weight
+            # clause above:  1e-11 * weff_i = 1e-11*|w_i| + tolw
+            weff.append([max(abs(w[i]), abs(res[0][i])) + 1e11 * res[1] for i in range(len(w))])
             # the weights depend on the point set only: same points, another valid tree labelling -> identical weights
             g2 = GlobalTrapezoidalGrid([a[d]], [b[d]], boundary=boundary, modified_basis=(mode == "modified"))
             _silent(g2.set_grid, [list(pts)], [relabel(pts, rng)])
@@ -625,8 +636,11 @@ def run_trapezoid(case):
         absref = np.abs(vals)
         for d in range(dim):                      # contract dimension by dimension with the reference weights
             ref = np.tensordot(np.array(wrefs[d]), ref, axes=(0, 0))
-            absref = np.tensordot(np.abs(np.array(wrefs[d])), absref, axes=(0, 0))
+            absref = np.tensordot(np.array(weff[d]), absref, axes=(0, 0))
         ref = float(ref)
+        # scale: sum_i |w_i| |v_i| with the ACTUAL weights (two evaluations of a cancelling sum agree only relative to
+        # that, not to the result) plus sum_i (allowed absolute error of w_i) |v_i|: a tiny weight that the library
+        # computes with an error relative to b-a (modified basis, 4 points) must not be trusted relative to itself
         sc = float(absref) + 1e-300
         if not abs(got - ref) <= 1e-11 * sc:      # rounding seen < 1e-14*sc
             out.bad("%s/integrate-nodal-values/%s" % (sub, mode),
